@@ -81,26 +81,49 @@ class LnLOracle:
 
     def forward_bound(self, rows, tw):
         """standard forward-error bound of the kernel's route: it inverts A^-1 by LU (relative error ~ eps*cond(A^-1)) and
-        forms chi^2 as the difference T1 - T2 of two large terms; bound = 10 * eps * cond(A^-1) * (|T1| + |T2|) (+ log-det term)"""
-        out = np.zeros(len(rows))
-        for k, i in enumerate(rows):
-            th = self.theta[i : i + 1]
-            M = self.p.M(th)[0]
+        forms chi^2 as the difference T1 - T2 of two large terms; bound = 10 * eps * cond(A^-1) * (|T1| + |T2|) (+ log-det term).
+        Vectorised over the rows."""
+        rows = list(rows)
+        if not rows:
+            return np.zeros(0)
+        out = np.full(len(rows), np.inf)
+        CH = 4096
+        for c0 in range(0, len(rows), CH):
+            idx = rows[c0 : c0 + CH]
+            th = self.theta[idx]
+            M = self.p.M(th)  # (T, N, L)
             mu, Lam = self.p.mu_Lam(th, tw)
-            var = self.p.var(th, tw)[0]
+            var = self.p.var(th, tw)
             with np.errstate(all="ignore"):
-                Ainv = np.diag(1.0 / Lam[0]) + (M.T / var) @ M
-                B = np.diag(var) + (M * Lam[0]) @ M.T
-                r = M @ mu[0] - self.p.y
-                T1 = float(r @ (r / var))
-                w = M.T @ (r / var)
-                try:
-                    T2 = float(w @ np.linalg.solve(Ainv, w))
-                    cA, cB = np.linalg.cond(Ainv), np.linalg.cond(B)
-                except Exception:
-                    out[k] = np.inf
-                    continue
-            out[k] = 10 * 2.2e-16 * (cA * (abs(T1) + abs(T2)) + cB * len(var))
+                Ainv = np.einsum("tnl,tn,tnk->tlk", M, 1.0 / var, M)
+                L = M.shape[2]
+                Ainv[:, np.arange(L), np.arange(L)] += 1.0 / Lam
+                B = np.einsum("tnl,tl,tml->tnm", M, Lam, M)
+                N = M.shape[1]
+                B[:, np.arange(N), np.arange(N)] += var
+                r = np.einsum("tnl,tl->tn", M, mu) - self.p.y[None, :]
+                T1 = np.sum(r * r / var, axis=1)
+                w = np.einsum("tnl,tn->tl", M, r / var)
+                good = np.all(np.isfinite(Ainv), axis=(1, 2)) & np.all(np.isfinite(B), axis=(1, 2))
+                res = np.full(len(idx), np.inf)
+                if np.any(good):
+                    try:
+                        cA = np.linalg.cond(Ainv[good])
+                        cB = np.linalg.cond(B[good])
+                        x = np.linalg.solve(Ainv[good], w[good][..., None])[..., 0]
+                        T2 = np.sum(w[good] * x, axis=1)
+                        res[good] = 10 * 2.2e-16 * (cA * (np.abs(T1[good]) + np.abs(T2)) + cB * N)
+                    except np.linalg.LinAlgError:
+                        # fall back to row-by-row for this chunk
+                        for k in np.where(good)[0]:
+                            try:
+                                cA = np.linalg.cond(Ainv[k]); cB = np.linalg.cond(B[k])
+                                T2 = float(w[k] @ np.linalg.solve(Ainv[k], w[k]))
+                                res[k] = 10 * 2.2e-16 * (cA * (abs(T1[k]) + abs(T2)) + cB * N)
+                            except np.linalg.LinAlgError:
+                                res[k] = np.inf
+                res = np.where(np.isfinite(res), res, np.inf)
+            out[c0 : c0 + len(idx)] = res
         return out
 
     def classify(self, impl):
